@@ -440,6 +440,109 @@ fn main() {
                 fjall::verif::disarm_fault();
                 format!("ok fired={n}")
             }
+            "delete_ks" => {
+                let Some(k) = w.ks.remove(a[0]) else { println!("R {} delete_ks => err:NoKs", ln + 1); continue };
+                let keep_handle = a.get(1).map(|x| *x == "keep").unwrap_or(false);
+                let h = k.inner().clone();
+                let r = res(&w.db.as_ref().expect("db").inner().delete_keyspace(h.clone()));
+                if keep_handle {
+                    w.ks.insert(format!("{}#old", a[0]), Ks::Plain(h));
+                }
+                drop(k);
+                r
+            }
+            "ks_exists" => format!("{}", w.db.as_ref().expect("db").inner().keyspace_exists(a[0])),
+            "list_ks" => {
+                let mut v: Vec<String> = w.db.as_ref().expect("db").inner().list_keyspace_names().iter().map(|x| x.to_string()).collect();
+                v.sort();
+                format!("[{}]", v.join(","))
+            }
+            "ks_drop" => {
+                w.ks.remove(a[0]);
+                "ok".into()
+            }
+            "copydir" => {
+                // copydir <src> <dst>: crash image as the OS sees it right now
+                fn cp(src: &std::path::Path, dst: &std::path::Path) -> std::io::Result<()> {
+                    std::fs::create_dir_all(dst)?;
+                    for e in std::fs::read_dir(src)? {
+                        let e = e?;
+                        let to = dst.join(e.file_name());
+                        if e.file_type()?.is_dir() {
+                            cp(&e.path(), &to)?;
+                        } else {
+                            std::fs::copy(e.path(), &to)?;
+                        }
+                    }
+                    Ok(())
+                }
+                match cp(std::path::Path::new(a[0]), std::path::Path::new(a[1])) {
+                    Ok(()) => "ok".into(),
+                    Err(e) => format!("err:{e}"),
+                }
+            }
+            "power_cut" => {
+                // power_cut <dir>: cut every journal in <dir> to the length last made durable through the writer (unsynced tail = zeros)
+                let mut out = vec![];
+                for e in std::fs::read_dir(a[0]).expect("dir") {
+                    let e = e.expect("dirent");
+                    let p = e.path();
+                    if p.extension().map(|x| x == "jnl").unwrap_or(false) {
+                        // durable lengths are recorded under the original path: map by file name
+                        let orig = w.dir.join(e.file_name());
+                        let d = fjall::verif::durable_len(&orig).unwrap_or(0);
+                        let len = std::fs::metadata(&p).expect("meta").len();
+                        let f = std::fs::OpenOptions::new().write(true).open(&p).expect("open");
+                        f.set_len(d.min(len)).expect("cut");
+                        f.set_len(len).expect("pad");
+                        out.push(format!("{}:{}", e.file_name().to_string_lossy(), d));
+                    }
+                }
+                out.sort();
+                format!("ok {}", out.join(","))
+            }
+            "setdir" => {
+                w.dir = PathBuf::from(a[0]);
+                "ok".into()
+            }
+            "flip" => {
+                // flip <file> <offset> <byte>
+                let off: usize = a[1].parse().expect("off");
+                let b = u8::from_str_radix(a[2], 16).expect("byte");
+                match std::fs::read(a[0]) {
+                    Ok(mut d) => {
+                        if off < d.len() {
+                            let old = d[off];
+                            d[off] = b;
+                            std::fs::write(a[0], d).expect("write");
+                            format!("ok old={old:02x}")
+                        } else {
+                            "err:Offset".into()
+                        }
+                    }
+                    Err(e) => format!("err:{e}"),
+                }
+            }
+            "truncate" => {
+                let n: u64 = a[1].parse().expect("len");
+                match std::fs::OpenOptions::new().write(true).open(a[0]) {
+                    Ok(f) => match f.set_len(n) {
+                        Ok(()) => "ok".into(),
+                        Err(e) => format!("err:{e}"),
+                    },
+                    Err(e) => format!("err:{e}"),
+                }
+            }
+            "filelen" => match std::fs::metadata(a[0]) {
+                Ok(m) => format!("len={}", m.len()),
+                Err(e) => format!("err:{e}"),
+            },
+            "ls" => {
+                let mut v: Vec<String> = std::fs::read_dir(a[0]).map(|d| d.filter_map(|e| e.ok()).map(|e| e.file_name().to_string_lossy().to_string()).collect()).unwrap_or_default();
+                v.sort();
+                format!("[{}]", v.join(","))
+            }
+            "journal_count" => format!("n={}", w.db.as_ref().expect("db").inner().journal_count()),
             "spawn" => {
                 let tid = a[0].to_string();
                 let cmd: Vec<String> = a[1..].iter().map(|x| (*x).to_string()).collect();
@@ -556,6 +659,24 @@ fn main() {
                                 "fetch_update" => match t.fetch_update(k, key, |_| Some(val.clone().into())) { Ok(Some(v)) => format!("some:{}", hex(&v)), Ok(None) => "none".into(), Err(e) => format!("err:{}", errname(&e)) },
                                 _ => match t.update_fetch(k, key, |_| Some(val.clone().into())) { Ok(Some(v)) => format!("some:{}", hex(&v)), Ok(None) => "none".into(), Err(e) => format!("err:{}", errname(&e)) },
                             }
+                        } else {
+                            "err:NoTx".into()
+                        }
+                    }
+                    "range_b" => {
+                        // tx <id> range_b <ks> <i|e|u> <lo> <i|e|u> <hi>
+                        use std::ops::Bound;
+                        let k = w.ks.get(a[2]).expect("ks").inner().clone();
+                        let mk = |kind: &str, key: &str| match kind {
+                            "i" => Bound::Included(unhex(key)),
+                            "e" => Bound::Excluded(unhex(key)),
+                            _ => Bound::Unbounded,
+                        };
+                        let rng = (mk(a[3], a[4]), mk(a[5], a[6]));
+                        if let Some(t) = w.otx.get(&id) {
+                            collect(t.range(&k, rng))
+                        } else if let Some(t) = w.stx.get(&id) {
+                            collect(t.range(&k, rng))
                         } else {
                             "err:NoTx".into()
                         }
